@@ -612,6 +612,15 @@ func tryReplay(o *Obligation, repo, scratch string) (string, bool) {
 	} else {
 		call = fmt.Sprintf("%s(%s)", fn.Name(), callArgs(sig, argExprs))
 	}
+	// inputs that do not satisfy the (executable) preconditions prove nothing: stop before the call
+	if c.fc != nil {
+		for _, rq := range c.fc.Requires {
+			if usesGhostIntrinsic(rq.Expr) {
+				continue
+			}
+			sb.WriteString(fmt.Sprintf("\tif !%s(%s) {\n\t\tfmt.Printf(\"VERIF-REPLAY outcome=requires-not-met // %s\\n\")\n\t\treturn\n\t}\n", rq.Fn, strings.Join(argExprs, ", "), strings.ReplaceAll(rq.Raw, "\"", "'")))
+		}
+	}
 	var oldNames []string
 	if o.Kind == "post" && c.fc != nil {
 		for i, od := range c.fc.Olds {
